@@ -152,7 +152,10 @@ def run_c24(ctx):
                         "row-level merges are generated only when our side of the table carries no violation records (artifact merging is C43 territory)",
                         "data conflicts of dolt_merge are not kept (sessions run with dolt_allow_commit_conflicts = 0 and merge with force only when no conflict arises)"]
     sims = [{"cfg": "c24_sim_txn.cfg", "num": ctx.q(70, 400), "depth": 16, "bindings": C24_BIND, "max": ctx.q(260, 1200)},
-            {"cfg": "c24_sim_mrg.cfg", "num": ctx.q(90, 600), "depth": 9, "bindings": C24_BIND, "max": ctx.q(300, 1600), "seed_off": 1000}]
+            {"cfg": "c24_sim_mrg.cfg", "num": ctx.q(90, 600), "depth": 9, "bindings": C24_BIND, "max": ctx.q(300, 1600), "seed_off": 1000},
+            # merges of random NON-conflicting triples drawn from the exhaustively checked small spaces (dense in violations)
+            {"cfg": "c24_sim_tri_uqfk.cfg", "num": ctx.q(60, 400), "depth": 3, "bindings": C24_BIND, "max": ctx.q(120, 800), "seed_off": 2000},
+            {"cfg": "c24_sim_tri_cknn.cfg", "num": ctx.q(50, 300), "depth": 3, "bindings": C24_BIND, "max": ctx.q(80, 500), "seed_off": 3000}]
     replay_sims(ctx, "Constraints.tla", binary, "cons", sims, c24_case, c24_corrupt, C24_CRIT,
                 require=["Commit:constraint", "Commit:ok", "Merge:ok", "Merge:constraint"])
 
